@@ -4,6 +4,7 @@ import (
 	"encoding/json"
 	"fmt"
 	"math/big"
+	"strings"
 	"sync"
 	"sync/atomic"
 	"time"
@@ -211,6 +212,12 @@ func runCases[T any](r *caseRunner, label string, cases []T, eval func(*T, *tiny
 		var ts tinyStats
 		got, want, err := eval(&cases[i], &ts, &r.bs)
 		if err != nil {
+			// a gadget of the tree under check that cannot be compiled / panics in Define is a
+			// verdict about that tree (it never happens on the unchanged tree); anything else is ours
+			if m := err.Error(); strings.Contains(m, "parse circuit") || strings.Contains(m, "runtime error") || strings.Contains(m, "panic") {
+				c.Violation(label+"|crash", fmt.Sprintf("%s: the gadget/circuit cannot be built or evaluated: %.300s", label, m), cases[i])
+				return
+			}
 			c.HarnessError("%s: %v", label, err)
 		}
 		tsm.Lock()
@@ -562,7 +569,7 @@ func c01FullCases(d, bsz int, quick bool) []c01Case {
 	if n-bsz >= 0 {
 		bases = append(bases, mk(empty, n-bsz, comms)) // ends at the last leaf
 	}
-	bases = append(bases, mk(hole, 0, comms)) // d=1,b>=2 or small trees: may run into the occupied leaf -> invalid by reference
+	bases = append(bases, mk(hole, 0, comms))        // d=1,b>=2 or small trees: may run into the occupied leaf -> invalid by reference
 	bases = append(bases, mk(empty, n-bsz+1, comms)) // runs past the end (wraps in mk) -> invalid
 	for bi, base := range bases {
 		add := func(b insBatch) { cases = append(cases, c01Case{Kind: "full-bn", B: &b, Dev: 1}) }
